@@ -173,16 +173,15 @@ Proof. intros. table_open. apply (tbl_from_prim_gen dbg 32); lia. Qed.
 Lemma tbl_from_i64 dbg x t : 0 <= x < 2 ^ 64 -> 0 <= t -> M13 "sint.from_i64" dbg [[x]; [t]] = S13 "sint.from_i64" dbg [[x]; [t]].
 Proof. intros. table_open. apply (tbl_from_prim_gen dbg 64); lia. Qed.
 
-(* i128: whenever the value is representable at the target width (always for two or more limbs) *)
+(* i128: both entries panic for a target of fewer than two limbs and agree otherwise *)
 Lemma tbl_from_i128 dbg lo hi t : is_word lo -> is_word hi ->
-  isp_fits (Z.to_nat t) (seval [lo; hi]) = true ->
   M13 "sint.from_i128" dbg [[lo; hi]; [t]] = S13 "sint.from_i128" dbg [[lo; hi]; [t]] /\
   M13 "sint.from_i128_trait" dbg [[lo; hi]; [t]] = S13 "sint.from_i128_trait" dbg [[lo; hi]; [t]].
 Proof.
-  intros Hl Hh Hf. split; table_open; unfold int_from_i128_op, nat_arg, sarg, arg; cbn [nth];
+  intros Hl Hh. split; table_open; unfold int_from_i128_op, nat_arg, sarg, arg; cbn [nth];
     change (resize 2 [lo; hi]) with [lo; hi];
-    rewrite int_from_i128_spec by assumption; unfold isp_panicking; rewrite Hf;
-    [reflexivity | destruct (dbg && (Z.to_nat t <? 2)%nat); reflexivity].
+    (destruct (Z.to_nat t <? 2)%nat; [reflexivity|]);
+    rewrite int_from_i128_spec by assumption; reflexivity.
 Qed.
 
 Lemma tbl_consts dbg t : 1 <= t -> M13 "sint.consts" dbg [[t]] = S13 "sint.consts" dbg [[t]].
@@ -268,14 +267,12 @@ Proof.
   - rewrite int_checked_div_floor_spec by assumption. fits_cases.
 Qed.
 
-(* the flooring div_rem table entries agree wherever the code is free of the remainder-sign defect *)
-Lemma tbl_checked_div_rem_floor_partial : n <> [] ->
-  (eval d <> 0 -> 0 <= seval n \/ seval n mod seval d = 0) ->
+Lemma tbl_checked_div_rem_floor : n <> [] ->
   M14 "sdiv.checked_div_rem_floor" dbg [n; d] = S14 "sdiv.checked_div_rem_floor" dbg [n; d].
 Proof.
-  intros Hne Hcase. table_open. nz_split d Hd. specialize (Hcase Hz).
-  unfold voptq_r, dsp_optq_r.
-  rewrite floor_quotient_spec, floor_remainder_partial by assumption.
+  intros Hne. table_open. nz_split d Hd.
+  rewrite int_checked_div_rem_floor_spec by assumption.
+  unfold voptq_r, dsp_optq_r. cbn [fst snd].
   replace (isp_fits (len d) (seval n mod seval d)) with true
     by (symmetry; apply isp_fits_iff; apply floor_rem_fits; assumption).
   destruct (isp_fits (len n) _); reflexivity.
